@@ -3,7 +3,9 @@ import re
 from fractions import Fraction
 from math import floor
 
-_tok = re.compile(r'\s*(?:(\d+\.\d+|\.\d+|\d+)|([-+*/\\()]))', re.ASCII)
+# no leading `\s*`: only the blanks in WS separate tokens (a line break or form feed is not a "space" of the statement; the coverage-guided
+# layer produced `\n1` and `1 \x0c2`, which an earlier version of this pattern read as valid expressions — a false alarm of the model)
+_tok = re.compile(r'(?:(\d+\.\d+|\.\d+|\d+)|([-+*/\\()]))', re.ASCII)
 WS = ' \t\xa0'
 
 
